@@ -108,6 +108,19 @@ proof fn overlap_closed_form(a: ApiEndpointVersions, b: ApiEndpointVersions)
     }
 }
 
+/// two non-empty `Until` ranges always share a version (the smaller of two witnesses)
+proof fn until_until_share(a: ApiEndpointVersions, b: ApiEndpointVersions)
+    requires a is Until, b is Until, !empty_until(a), !empty_until(b)
+    ensures overlap_closed(a, b) // @nonempty_untils_share
+{
+    broadcast use vle_total, vle_antisym, vle_trans;
+    let x = a->Until_0; let y = b->Until_0;
+    let v1 = choose|v: Version| vlt(v, x);
+    let v2 = choose|v: Version| vlt(v, y);
+    let v = vmin(v1, v2);
+    assert(vlt(v, vmin(x, y)));
+}
+
 /// C05 "whichever of the two is registered first": the relation the contract of
 /// `overlaps_with` pins the result to is symmetric, and so is the carve-out.
 proof fn conflict_symmetric(a: ApiEndpointVersions, b: ApiEndpointVersions)
